@@ -373,9 +373,9 @@ func main() {
 			}
 			return common.FuncHash(p.fset, f, recv, name)
 		}
-		fmt.Fprintf(&b, "/-- fingerprints of the functions the models transcribe -/\ndef sourceHashes : List (String × String) :=\n  [(\"_select\", %s),\n   (\"clauseChanDir\", %s),\n   (\"getFunc\", %s),\n   (\"frame.clone\", %s),\n   (\"newFrame\", %s),\n   (\"copyDeferArg\", %s)]\n",
+		fmt.Fprintf(&b, "/-- fingerprints of the functions the models transcribe -/\ndef sourceHashes : List (String × String) :=\n  [(\"_select\", %s),\n   (\"clauseChanDir\", %s),\n   (\"getFunc\", %s),\n   (\"frame.clone\", %s),\n   (\"newFrame\", %s),\n   (\"copyDeferArg\", %s),\n   (\"newCallFrame\", %s),\n   (\"genValueRecv\", %s)]\n",
 			common.LeanStr(h(frun, "", "_select")), common.LeanStr(h(frun, "", "clauseChanDir")), common.LeanStr(h(frun, "", "getFunc")),
-			common.LeanStr(h(fint, "frame", "clone")), common.LeanStr(h(fint, "", "newFrame")), common.LeanStr(h(frun, "", "copyDeferArg")))
+			common.LeanStr(h(fint, "frame", "clone")), common.LeanStr(h(fint, "", "newFrame")), common.LeanStr(h(frun, "", "copyDeferArg")), common.LeanStr(h(fint, "", "newCallFrame")), common.LeanStr(h(p.files["value.go"], "", "genValueRecv")))
 		b.WriteString("end YaegiVerif.Generated.C08\n")
 		return b.String(), nil
 	})
